@@ -26,6 +26,7 @@ import socket as _socket
 from typing import Any
 
 from easynetwork.clients.async_tcp import AsyncTCPNetworkClient
+from easynetwork.exceptions import ClientClosedError
 from easynetwork.lowlevel.api_async.backend._asyncio.dns_resolver import AsyncIODNSResolver
 from easynetwork.lowlevel.socket import INETSocketAttribute
 from easynetwork.protocol import StreamProtocol
@@ -46,7 +47,8 @@ RULE = (
     "loop iteration) x happy_eyeballs_delay {default, 0, 0.25, inf} x socket() EMFILE x local_address with per-bind failures x "
     "entry point {resolver, backend.create_tcp_connection, AsyncTCPNetworkClient.wait_connected, backend.create_udp_endpoint}; "
     "sweep harnesses: for each base scenario task.cancel() before every loop iteration j=1..J+1 of the connecting task "
-    "(one evaluation = base run + J+1 cancel runs); race harnesses: one run with selector reorder/hold and at most one cancel "
+    "(one evaluation = base run + J+1 cancel runs; sweep-aclose: same sweep with client.aclose() started from another task instead "
+    "of task.cancel(), oracle: nothing open once aclose() returned); race harnesses: one run with selector reorder/hold and at most one cancel "
     "at a random iteration or virtual time; oracle = registry of every socket the library created (open set vs returned socket)"
 )
 COMPONENTS_REAL = [
@@ -117,7 +119,7 @@ def _hed_value(sc: dict) -> float | None:
 
 
 # ------------------------------------------------------------------------------------------------------ one run
-def _run(world: World, sc: dict, *, cancel_iter: int | None = None, cancel_time: float | None = None, perturb: bool = False, label: str = "") -> dict:
+def _run(world: World, sc: dict, *, cancel_iter: int | None = None, cancel_time: float | None = None, perturb: bool = False, label: str = "", cancel_kind: str = "task") -> dict:
     """One simulated connect.  Returns the facts the oracle needs (no repo object survives)."""
     mode = sc["mode"]
     net = SimNet(world)
@@ -205,13 +207,7 @@ def _run(world: World, sc: dict, *, cancel_iter: int | None = None, cancel_time:
             holder["transport"] = tr
             return tr.extra(INETSocketAttribute.socket).fileno()
         if mode == "client":
-            kw: dict[str, Any] = {}
-            if hed is not None:
-                kw["happy_eyeballs_delay"] = hed
-            if local_address is not None:
-                kw["local_address"] = local_address
-            client = AsyncTCPNetworkClient(("sim.host", PORT), StreamProtocol(StringLineSerializer()), backend, **kw)
-            holder["client"] = client
+            client = holder["client"]
             await client.wait_connected()
             if not client.is_connected():
                 raise HarnessError("wait_connected() returned but is_connected() is False")
@@ -230,15 +226,33 @@ def _run(world: World, sc: dict, *, cancel_iter: int | None = None, cancel_time:
             sel = loop.sim_selector  # type: ignore[attr-defined]
             sel.hold_den = draw_rate(world, "sw.hold", (0, 0, 8, 3))
             sel.reorder = bool(world.choose("sw.reorder", 2))
+        if mode == "client":
+            kw: dict[str, Any] = {}
+            if hed is not None:
+                kw["happy_eyeballs_delay"] = hed
+            if local_address is not None:
+                kw["local_address"] = local_address
+            holder["client"] = AsyncTCPNetworkClient(("sim.host", PORT), StreamProtocol(StringLineSerializer()), backend, **kw)
         task = loop.create_task(connector(), name="connector")
         it0 = world.counters["loop_iterations"]
+        t_start = world.now
+        closers: list[asyncio.Task] = []
 
         def on_done(_t: Any) -> None:
             res["J"] = world.counters["loop_iterations"] - it0
 
         task.add_done_callback(on_done)
 
-        def do_cancel(why: str) -> None:
+        def do_cancel(why: str, force_task: bool = False) -> None:
+            if cancel_kind == "aclose" and not force_task:
+                # the other documented way to abort a pending connect: client.aclose() from another task
+                if not closers and not task.done():
+                    closers.append(loop.create_task(holder["client"].aclose(), name="closer"))
+                    res["cancel_sent"] = res["aclose_started"] = True
+                    res["aclose_before_hang"] = world.now < t_start + CAP  # not: after the hang timer has fired
+                    world.fault(why)
+                    world.log("aclose", "closer", label)
+                return
             if task.cancel():
                 res["cancel_sent"] = True
                 world.fault(why)
@@ -247,6 +261,8 @@ def _run(world: World, sc: dict, *, cancel_iter: int | None = None, cancel_time:
         def hook() -> None:
             if cancel_iter is not None and world.counters["loop_iterations"] - it0 == cancel_iter:
                 do_cancel("cancel_at_iteration")
+                # the hook runs inside select(): callbacks it made ready must not wait for the next network event
+                loop._write_to_self()  # type: ignore[attr-defined]
 
         world.iteration_hooks.append(hook)
         if cancel_time is not None:
@@ -255,13 +271,18 @@ def _run(world: World, sc: dict, *, cancel_iter: int | None = None, cancel_time:
             _, pending = await asyncio.wait([task], timeout=CAP)
             if pending:
                 res["hang"] = True
-                do_cancel("cancel_at_time")
+                do_cancel("cancel_at_time", True)
                 _, pending = await asyncio.wait([task], timeout=CAP)
                 if pending:
                     res["cancel_hang"] = True
                     return
         finally:
             world.iteration_hooks.remove(hook)
+        if closers:
+            _, pending = await asyncio.wait(closers, timeout=CAP)
+            res["aclose_hang"] = bool(pending)
+            if not pending and not closers[0].cancelled() and closers[0].exception() is not None:
+                res["aclose_exc"] = closers[0].exception()
         if task.cancelled():
             res["outcome"] = "cancelled"
         elif task.exception() is not None:
@@ -280,7 +301,7 @@ def _run(world: World, sc: dict, *, cancel_iter: int | None = None, cancel_time:
         res["established"] = [s.label for s in established]
         # tidy up (not part of the oracle)
         try:
-            if "client" in holder and res["outcome"] == "ok":
+            if "client" in holder and res["outcome"] == "ok" and not closers:
                 await holder["client"].aclose()
             elif "transport" in holder:
                 await holder["transport"].aclose()
@@ -344,6 +365,25 @@ def _check(world: World, sc: dict, res: dict, family: str, extra: str = "") -> N
         world.probe("hang_behind_never_attempt")
     if out == "ok" and res["cancel_sent"]:
         world.probe("success_despite_cancel_request")
+    if res.get("aclose_started"):
+        # connect aborted by client.aclose(): once aclose() has returned nothing may stay open, whatever wait_connected() saw
+        if res.get("aclose_hang"):
+            raise bad("aclose-terminates")
+        if res["hang"] and res.get("aclose_before_hang"):
+            raise bad("aclose-aborts-pending-connect")
+        if res.get("aclose_exc") is not None:
+            world.probe("aclose_raised_" + type(res["aclose_exc"]).__name__)
+        if opened:
+            raise bad("closed-client-no-open-socket")
+        if out == "cancelled" and not res["hang"]:
+            raise bad("cancelled-without-cancel")
+        if out == "exc":
+            leaves = _leaves(res["exc"])
+            if not leaves or not all(isinstance(e, (OSError, ClientClosedError)) for e in leaves):
+                raise bad("failure-reported-as-oserror-group")
+        if out == "ok":
+            world.progress(1)
+        return
     if out == "ok":
         world.progress(1)
         if len(opened) != 1:
@@ -386,7 +426,7 @@ def _h_race(world: World, modes: tuple[str, ...]) -> None:
     _check(world, sc, res, "race")
 
 
-def _h_sweep(world: World, modes: tuple[str, ...]) -> None:
+def _h_sweep(world: World, modes: tuple[str, ...], cancel_kind: str = "task") -> None:
     sc = _draw_scenario(world, modes)
     _notes(world, sc)
     bw = World(parent=world)
@@ -400,16 +440,18 @@ def _h_sweep(world: World, modes: tuple[str, ...]) -> None:
     for j in range(1, J + 2):
         child = World(parent=world)
         child.quiet = True
-        res = _run(child, sc, cancel_iter=j, label=f"j{j}")
+        res = _run(child, sc, cancel_iter=j, label=f"j{j}", cancel_kind=cancel_kind)
         if res["cancel_sent"]:
             world.probe("sweep_cancel_delivered")
-        _check(world, sc, res, "sweep", extra=f"task.cancel() before loop iteration j={j} of {J} (base outcome {base['outcome']});")
+        what = "task.cancel()" if cancel_kind == "task" else "client.aclose() started"
+        _check(world, sc, res, "sweep" if cancel_kind == "task" else "sweep-aclose", extra=f"{what} before loop iteration j={j} of {J} (base outcome {base['outcome']});")
     world.probe("sweep_points", J + 1)
 
 
 HARNESSES = [
     Harness("sweep-tcp", lambda w: _h_sweep(w, TCP_MODES), weight=3, wall_limit=60.0),
     Harness("sweep-udp", lambda w: _h_sweep(w, ("udp",)), weight=1, wall_limit=60.0),
+    Harness("sweep-aclose", lambda w: _h_sweep(w, ("client",), "aclose"), weight=1, wall_limit=60.0),
     Harness("race-tcp", lambda w: _h_race(w, TCP_MODES), weight=3),
     Harness("race-udp", lambda w: _h_race(w, ("udp",)), weight=1),
 ]
